@@ -27,6 +27,16 @@ def prepare(seed, conf, pending="mixed", presteps=10):
         g.a.write_file(0, "TAIL", g.content(3), mtime=g.stamp()); g.rec.env("write 0/TAIL"); g.steps.append("write 0/TAIL")
         g.a.clock += 10
         g.rec.sync("-E"); g.steps.append("sync -E")
+    if pending == "partial":
+        # a synced multi-block file is rewritten with the same bytes except its first block: all its stripes are gone through
+        # by the next sync, only the first needs a parity write; plus one new file on another disk
+        big = list(range(900, 906))
+        g.a.write_file(0, "BIG", big, mtime=g.stamp()); g.rec.env("write 0/BIG"); g.steps.append("write 0/BIG %r" % big)
+        g.a.clock += 10
+        g.rec.sync("-E"); g.steps.append("sync -E")
+        g.a.write_file(0, "BIG", [950] + big[1:], mtime=g.stamp()); g.rec.env("rewrite the first block of 0/BIG")
+        g.steps.append("rewrite the first block of 0/BIG")
+        return g
     if pending == "deletes":
         # only deletions are pending (of files that are fully synced)
         k = 0
